@@ -76,7 +76,7 @@ fn main() {
         "selftest" => selftest::run(&mut ctx),
         "probe" => {
             // llgv probe --kind lark|regex|json --text '...' [--bytes 'abc']: development aid
-            let v = vocab::v1(false);
+            let v = vocab::v1(ctx.arg("--canon").is_some());
             let f = engine::factory(&v, &engine::FactoryOpts::default()).unwrap();
             let text = ctx.arg("--text").unwrap_or_default();
             let g = match ctx.arg("--kind").as_deref() {
